@@ -243,7 +243,7 @@ func waitFor(cond func() bool, d time.Duration, conns ...*wire.Conn) bool {
 
 func main() {
 	c := vk.Init("C04")
-	c.Rule("scenario i: 1..200 well-formed messages (any MsgType, 30..70000 bytes incl. single fields of 4000..70000 bytes, values containing '10=', fields 110/210/1010/9910) are concatenated and cut into read chunks by one of 13 strategies (all-in-one, one byte per read, random, message-aligned, coalescing, and a boundary at every offset 0..7 of every message's trailing CheckSum field), with feed timing {none, Gosched, 1 ms pauses}; delivered to (a) an Initiator with a recording handler that asserts one ServeIncoming at a time, (b) an Initiator with DefaultHandler + incoming callbacks, (c) an Acceptor with 1..8 simultaneous connections (arriving one at a time or all back to back before any handler exists) through the real handler factory, each message tagged (connection, counter); buffer sizes {0,1,10}. Outbound: 1..4 goroutines hand unique messages to Send/SendRaw; the peer-side capture is split by the reference splitter. Oracle: per connection delivered == sent (bytes, order, multiplicity), nothing from another connection, outbound stream == hand-off order (order seen by an outgoing ALL-handler under the handler's own lock; per-goroutine order for SendRaw). Truncated predecessor: a connection ends after some complete fields of a message, then a new connection (new initiator, or next client of the same acceptor) is sent 1..4 messages and must be given exactly those. Replying handlers: 2..10 messages in one read, each answered with SendRaw from inside the incoming handler (buffers 0/1/10, both roles): all delivered, all answers on the wire in order. Long pauses: 3..6 messages whose stream stops for 0.7..1.3 s inside a value, inside the CheckSum tag or value, between fields or between messages (the scripted connection honours read deadlines, should the library set any). Re-sent object: one generated message object handed to Send 3..14 times with changed content against an instantly or slowly reading peer; the stream must carry each hand-off as it was when handed off. Write fault: 2..11 messages handed to SendRaw in order while one write takes only part of its message (cut anywhere, or inside the CheckSum field) and runs into a 30 ms write deadline, later writes being accepted: the captured stream must stay a prefix of the hand-offs. distinct = hash(partition signature, messages); non-trivial = >=2 messages or a boundary inside a CheckSum field")
+	c.Rule("scenario i: 1..200 well-formed messages (any MsgType, 30..70000 bytes incl. single fields of 4000..70000 bytes, values containing '10=', fields 110/210/1010/9910) are concatenated and cut into read chunks by one of 13 strategies (all-in-one, one byte per read, random, message-aligned, coalescing, and a boundary at every offset 0..7 of every message's trailing CheckSum field), with feed timing {none, Gosched, 1 ms pauses}; delivered to (a) an Initiator with a recording handler that asserts one ServeIncoming at a time, (b) an Initiator with DefaultHandler + incoming callbacks, (c) an Acceptor with 1..8 simultaneous connections (arriving one at a time or all back to back before any handler exists) through the real handler factory, each message tagged (connection, counter); buffer sizes {0,1,10}. Outbound: 1..4 goroutines hand unique messages to Send/SendRaw; the peer-side capture is split by the reference splitter. Oracle: per connection delivered == sent (bytes, order, multiplicity), nothing from another connection, outbound stream == hand-off order (order seen by an outgoing ALL-handler under the handler's own lock; per-goroutine order for SendRaw). Burst then close: 5..8 messages in one chunk followed at once by the end of the stream, to a handler that needs 3 ms per message (buffers 0/1/4, both roles): every message is still delivered. Truncated predecessor: a connection ends after some complete fields of a message, then a new connection (new initiator, or next client of the same acceptor) is sent 1..4 messages and must be given exactly those. Replying handlers: 2..10 messages in one read, each answered with SendRaw from inside the incoming handler (buffers 0/1/10, both roles): all delivered, all answers on the wire in order. Long pauses: 3..6 messages whose stream stops for 0.7..1.3 s inside a value, inside the CheckSum tag or value, between fields or between messages (the scripted connection honours read deadlines, should the library set any). Re-sent object: one generated message object handed to Send 3..14 times with changed content against an instantly or slowly reading peer; the stream must carry each hand-off as it was when handed off. Write fault: 2..11 messages handed to SendRaw in order while one write takes only part of its message (cut anywhere, or inside the CheckSum field) and runs into a 30 ms write deadline, later writes being accepted: the captured stream must stay a prefix of the hand-offs. distinct = hash(partition signature, messages); non-trivial = >=2 messages or a boundary inside a CheckSum field")
 	n := c.Pick(3000, 60000)
 	vk.Parallel(n, runtime.NumCPU(), func(i int) {
 		r := c.Rand("c04", int64(i))
@@ -544,6 +544,79 @@ func main() {
 			c.Sample(desc)
 		}
 	})
+	// the peer sends a burst and goes away at once while the application handler is slower than the peer: what was
+	// received completely before the end of the stream is still given to the handler
+	nbc := c.Pick(72, 1200)
+	var lostConns, burstConns int64
+	var lostExample atomic.Value
+	vk.Parallel(nbc, runtime.NumCPU(), func(i int) {
+		r := c.Rand("c04-burst-close", int64(i))
+		buf := []int{0, 1, 4}[i%3]
+		mode := []string{"initiator", "acceptor"}[(i/3)%2]
+		nmsg := 5 + r.Intn(4)
+		var sent [][]byte
+		var stream []byte
+		for k := 0; k < nmsg; k++ {
+			m := randMsg(r, fmt.Sprintf("bc-%d", k))
+			for len(m) > 600 {
+				m = randMsg(r, fmt.Sprintf("bc-%d", k))
+			}
+			sent = append(sent, m)
+			stream = append(stream, m...)
+		}
+		conn := wire.NewConn("c04bc", false)
+		var mu sync.Mutex
+		var got [][]byte
+		slow := func(m []byte) bool {
+			time.Sleep(3 * time.Millisecond)
+			mu.Lock()
+			got = append(got, append([]byte(nil), m...))
+			mu.Unlock()
+			return true
+		}
+		done := make(chan struct{})
+		var stop func()
+		if mode == "initiator" {
+			h := simplefixgo.NewInitiatorHandler(context.Background(), "35", buf)
+			h.HandleIncoming(simplefixgo.AllMsgTypes, slow)
+			ini := simplefixgo.NewInitiator(conn, h, buf, 5*time.Second)
+			go func() { ini.Serve(); close(done) }()
+			stop = func() { ini.Close(); h.Stop() }
+		} else {
+			lst := wire.NewListener()
+			acc := simplefixgo.NewAcceptor(lst, simplefixgo.NewAcceptorHandlerFactory("35", buf), 5*time.Second, func(h simplefixgo.AcceptorHandler) {
+				h.HandleIncoming(simplefixgo.AllMsgTypes, slow)
+			})
+			go func() { acc.ListenAndServe(); close(done) }()
+			lst.Connect(conn)
+			stop = func() { acc.Close() }
+		}
+		conn.Feed(stream)
+		conn.FeedEOF()
+		waitFor(func() bool { cl, _ := conn.Closed(); return cl }, 4*time.Second)
+		time.Sleep(time.Duration(nmsg*4) * time.Millisecond)
+		mu.Lock()
+		g2 := append([][]byte(nil), got...)
+		mu.Unlock()
+		desc := fmt.Sprintf("burst-then-close %s buf=%d: %d messages, then end of stream; the handler needs 3 ms per message", mode, buf, nmsg)
+		c.Eval(vk.Hash64([]byte(desc), []byte{byte(i), byte(i >> 8)}), true)
+		atomic.AddInt64(&burstConns, 1)
+		compare(c, "inbound/burst-then-close/"+mode, sent, g2, map[string]interface{}{"scenario": desc, "index": i, "seed": c.Seed})
+		if len(g2) < len(sent) {
+			atomic.AddInt64(&lostConns, 1)
+			lostExample.Store(fmt.Sprintf("%s: %d of %d messages reached the handler", desc, len(g2), len(sent)))
+		}
+		stop()
+		conn.Close()
+		select {
+		case <-done:
+		case <-time.After(5 * time.Second):
+		}
+	})
+	c.Set("burst_then_close_connections", burstConns)
+	c.Set("burst_then_close_connections_that_lost_their_tail", lostConns)
+	_ = lostExample
+
 	// a connection that ends in the middle of a message (some complete fields of it received), followed by a new
 	// connection in the same process: the new connection's handler gets exactly what its own peer sends
 	npt := c.Pick(80, 1500)
